@@ -66,7 +66,7 @@ def ref_commands(lines):
     return out, any(c == "raises" for c in parsed)
 
 
-def _run(files, order, scratch, eapi="8"):
+def _run(files, order, scratch, eapi="8", last_newline=True):
     """files: [(name, [lines])]; order: creation order on disk"""
     import shutil
     from pkgcore.ebuild.pkg_updates import read_updates
@@ -77,7 +77,8 @@ def _run(files, order, scratch, eapi="8"):
     for i in order:
         name, lines = files[i]
         with open(os.path.join(d, name), "w") as f:
-            f.write("".join(l + "\n" for l in lines))
+            text = "".join(l + "\n" for l in lines)
+            f.write(text if last_newline else text[:-1])   # a file whose last line has no line end still holds that line
     return read_updates(d, get_eapi(eapi))
 
 
@@ -114,16 +115,18 @@ def enum_updates(seed):
         want, bad = ref_commands(applied)
         if bad:
             return
-        try:
-            got = _run(files, order, scratch, eapi=eapi)
-        except Exception as e:
-            if len(fails) < 5:
-                fails.append({"model": {"files": files, "created_in_order": order, "eapi": eapi}, "detail": f"read_updates raised {type(e).__name__}: {e} on {files}"})
-            return
-        if norm(got) != norm(want) and len(fails) < 5:
-            diff = {k: (norm(got).get(k), norm(want).get(k)) for k in set(got) | set(want) if norm(got).get(k) != norm(want).get(k)}
-            fails.append({"model": {"files": files, "created_in_order": order, "eapi": eapi},
-                          "detail": f"update files {files} under EAPI {eapi} ({label}): per name (reported, reference applying the files {'by date' if eapi == '7' else 'in name order'}): {diff}"})
+        for last_newline in ((True, False) if cases % 3 == 0 and all(lines and lines[-1] for _, lines in files) else (True,)):
+            try:
+                got = _run(files, order, scratch, eapi=eapi, last_newline=last_newline)
+            except Exception as e:
+                if len(fails) < 5:
+                    fails.append({"model": {"files": files, "created_in_order": order, "eapi": eapi}, "detail": f"read_updates raised {type(e).__name__}: {e} on {files}"})
+                return
+            if norm(got) != norm(want) and len(fails) < 5:
+                diff = {k: (norm(got).get(k), norm(want).get(k)) for k in set(got) | set(want) if norm(got).get(k) != norm(want).get(k)}
+                fails.append({"model": {"files": files, "created_in_order": order, "eapi": eapi, "last_line_terminated": last_newline},
+                              "detail": f"update files {files}{'' if last_newline else ' (last line of each file without a line end)'} under EAPI {eapi} ({label}): per name (reported, reference applying the files "
+                                        f"{'by date' if eapi == '7' else 'in name order'}): {diff}"})
     try:
         for n in range(1, 5):
             pool = CMDS if n <= 3 else moves + slots[:2]
